@@ -580,6 +580,21 @@ static void run_stream(FILE *in)
       char *g = dec(t[3]), *k = dec(t[4]);
       do_get(obj(t[1]), kind_of(t[2]), g, k, t[5]);
       free(g); free(k);
+    } else if (!strcmp(c, "getnull")) {
+      /* a typed getter with a NULL result pointer */
+      char *g = dec(t[3]), *k = dec(t[4]); econf_file *kf = obj(t[1]); econf_err e = 0;
+      poison_errno();
+      switch (kind_of(t[2])) {
+      case 0: e = econf_getStringValue(kf, g, k, NULL); break;
+      case 1: e = econf_getIntValue(kf, g, k, NULL); break;
+      case 2: e = econf_getInt64Value(kf, g, k, NULL); break;
+      case 3: e = econf_getUIntValue(kf, g, k, NULL); break;
+      case 4: e = econf_getUInt64Value(kf, g, k, NULL); break;
+      case 5: e = econf_getBoolValue(kf, g, k, NULL); break;
+      case 6: e = econf_getFloatValue(kf, g, k, NULL); break;
+      default: e = econf_getDoubleValue(kf, g, k, NULL); break;
+      }
+      printf("rc=%d\n", e); free(g); free(k);
     } else if (!strcmp(c, "ext")) {
       char *g = dec(t[2]), *k = dec(t[3]);
       do_ext(obj(t[1]), g, k);
@@ -749,9 +764,14 @@ static void run_stream(FILE *in)
       int o = atoi(t[1]);
       char *proj = dec(t[2]), *usr = dec(t[3]), *name = decname(t[4]), *sfx = dec(t[5]), *dl = argstr(t[6], dlbuf), *cm = argstr(t[7], cmbuf);
       econf_file *res = objs[o];
+      if (usr && usr[0] == '@') {         /* "@/x": the vendor sub-directory <scratch root>/x, given WITHOUT a root prefix on the handle */
+        char *u2; if (asprintf(&u2, "%s%s", root, usr + 1) < 0) abort();
+        free(usr); usr = u2;
+      }
       /* without a handle (or with one that names no directories) the library looks below the REAL /usr, /run and /etc:
-         only allowed for project names that cannot exist there */
-      if ((!res || (!res->root_prefix && res->parse_dirs_count == 0)) && !(proj && !strncmp(proj, "verif-absent-", 13)))
+         only allowed for project names (or, without a project, configuration names) that cannot exist there */
+      if ((!res || (!res->root_prefix && res->parse_dirs_count == 0)) && !(proj && !strncmp(proj, "verif-absent-", 13))
+          && !(!proj && name && !strncmp(name, "verif-absent-", 13)))
         { printf("driver-error readconfig needs ROOT_PREFIX or PARSING_DIRS\n"); exit(3); }
       begin_lib();
       econf_err e = cb_mode ? econf_readConfigWithCallback(&res, proj, usr, name, sfx, dl, cm, the_callback, &cb_data_token)
